@@ -32,7 +32,7 @@ EXPLANATION = (
     'move is in its attack set and not onto an own piece), and conversely every move of the class the generator promises (all moves / '
     'evasions on valid targets or en passant / captures and promotions / captures, promotions, direct and discovered checks) is contained '
     'in some emitted mask. (2) castling emission guards, (3) attack-function/piece-set pairing and promotion emission, (4) legality '
-    'shortcut guards, (5) givesCheck scan guards, evaluated with constants folded per instantiation.')
+    'shortcut guards, (5) givesCheck scan guards, evaluated with constants folded per instantiation. Added later; (2) no condition other than the castling rules or a givesCheck filter restricts a generated castling move.')
 UNDECIDED = ('that the precomputed attack, direction and between-square tables (BitBoard::staticInitialize, magic multiplication) contain the '
              'right geometry for every square and occupancy, that the legality filter and givesCheck agree with making the move for every '
              'position (value-level), and absence of duplicates across helper calls. The rules take the attack tables as atoms.')
@@ -654,7 +654,10 @@ def c2_castling(fb, rep):
                     rook = fb.enum_const('Piece::WROOK' if wtm else 'Piece::BROOK')
                     want_bit = fb.const('Position::%s_CASTLE' % corner_name.get(corner, '?'))
                     got = {'right': [], 'empty': [], 'rook': [], 'safe': [], 'king': []}
+                    unclassified = []
                     for g, gs in guards:
+                        n_before = sum(len(v) for v in got.values())
+                        g_orig = g
                         g = subst(g, store)
                         zt = zero_test(g, gs)
                         if zt:
@@ -680,6 +683,12 @@ def c2_castling(fb, rep):
                                     got['rook'].append((cval(p0['args'][0]), cval(q_)))
                                 if isinstance(p0, dict) and p0.get('k') == 'call' and cname(p0) == 'Position::getKingSq' and (cval(p0['args'][0]) != 0) == wtm:
                                     got['king'].append(cval(q_))
+                        if sum(len(v) for v in got.values()) == n_before:
+                            # the captures-and-checks list may leave out a castling move that does not give check, if it
+                            # asks the verdict function that C01.5 checks; an ad-hoc attack-set test is not accepted
+                            if kind == 'capchecks' and gs and any(n_.get('k') == 'call' and cname(n_) == 'MoveGen::givesCheck' for n_ in walk(g_orig)):
+                                continue
+                            unclassified.append(('' if gs else '!') + show(g_orig, 70))
                     rep.ob(clause, 'K4 guard set', inst + ': emitted from the king home square', frm == home and frm in got['king'], R.site(f, e), 'from %s, king tests %s' % (frm, got['king']), f.sname)
                     rep.ob(clause, 'K4 guard set', inst + ': guarded by the matching castle-right bit', want_bit is not None and want_bit in got['right'], R.site(f, e),
                            'right bits tested %s, wanted %s (%s_CASTLE)' % (got['right'], want_bit, corner_name.get(corner)), f.sname)
@@ -688,6 +697,8 @@ def c2_castling(fb, rep):
                     rep.ob(clause, 'K4 guard set', inst + ': own rook on the corner square', (corner, rook) in got['rook'], R.site(f, e), 'tests %s, wanted (%s, %s)' % (got['rook'], corner, rook), f.sname)
                     rep.ob(clause, 'K4 guard set', inst + ': king square and transit square not attacked', {frm, frm + side} <= set(got['safe']), R.site(f, e),
                            'sqAttacked tests on %s, wanted %s' % (sorted(x for x in got['safe'] if x is not None), sorted({frm, frm + side})), f.sname)
+                    rep.ob(clause, 'K4 guard set', inst + ': no condition other than the castling rules restricts the move (every generator lists every legal castling move)',
+                           not unclassified, R.site(f, e), 'conditions not among right / empty squares / rook / unattacked squares / king at home: %s' % unclassified, f.sname)
                     pr = strip_casts(e['args'][2])
                     rep.ob(clause, 'K11 constant agreement', inst + ': no promotion piece', cval(pr) == 0, R.site(f, e), show(e), f.sname)
             if kind in ('all', 'capchecks'):
